@@ -47,7 +47,9 @@ impl FileStorage {
     }
 
     fn apply_wal(file: &mut File, wal: &mut WriteAheadLog) -> Result<(), DbError> {
-        for record in wal.records()? {
+        // undo log: the records must be applied newest-first so that
+        // the oldest record of any region (its committed content) wins
+        for record in wal.records()?.into_iter().rev() {
             Self::apply_wal_record(file, record)?;
         }
 
